@@ -22,8 +22,12 @@ import Lean.Data.Json
 import FaxVerif.C13.Spec
 open Lean FaxVerif.C13
 
+/-- −0.0 and +0.0 are the same number for Python's `==` (and no operator of the subset tells them apart where Python
+is defined: division by either raises): one representative, so that equality of bit patterns is numeric equality -/
+def normZ (b : UInt64) : UInt64 := if b == 0x8000000000000000 then 0 else b
+
 /-- IEEE binary64 through Lean's `Float`, carried as bit patterns so that equality is decidable -/
-def fbin (f : Float → Float → Float) (a b : UInt64) : UInt64 := (f (Float.ofBits a) (Float.ofBits b)).toBits
+def fbin (f : Float → Float → Float) (a b : UInt64) : UInt64 := normZ (f (Float.ofBits a) (Float.ofBits b)).toBits
 
 def pyFloatMod (x y : Float) : Float :=
   -- CPython float_rem: fmod, then adjusted to the sign of the divisor (fmod via truncation: exact on the dyadic samples used)
@@ -36,11 +40,11 @@ def F : Num :=
   { D := UInt64
     add := fbin (· + ·), sub := fbin (· - ·), mul := fbin (· * ·), div := fbin (· / ·)
     pow := fbin Float.pow, pymod := fbin pyFloatMod
-    neg := fun a => (-(Float.ofBits a)).toBits
+    neg := fun a => normZ (-(Float.ofBits a)).toBits
     lt := fun a b => Float.ofBits a < Float.ofBits b
     le := fun a b => Float.ofBits a ≤ Float.ofBits b
     eq := fun a b => Float.ofBits a == Float.ofBits b
-    ofInt := fun n => (Float.ofInt n).toBits
+    ofInt := fun n => normZ (Float.ofInt n).toBits
     toInt := fun a => (Float.ofBits a).toInt64.toInt }
 
 instance : DecidableEq F.D := inferInstanceAs (DecidableEq UInt64)
@@ -89,7 +93,7 @@ def updOf (j : Json) : Except String Upd := do
 
 def bitsOf (j : Json) : Except String UInt64 := do
   match (← j.getStr?).toNat? with
-  | some n => pure n.toUInt64
+  | some n => pure (normZ n.toUInt64)
   | none => throw "bad bits"
 
 def envOf (j : Json) : Except String (Env F) := do
@@ -124,8 +128,8 @@ def cvOf (j : Json) : Except String (CV F) := do
   let v ← (← j.getObjVal? "v").getStr?
   match k with
   | "int" => match v.toInt? with | some n => pure (.int n) | none => throw "bad int"
-  | "float" => match v.toNat? with | some n => pure (.flt n.toUInt64) | none => throw "bad bits"
-  | "double" => match v.toNat? with | some n => pure (.dbl n.toUInt64) | none => throw "bad bits"
+  | "float" => match v.toNat? with | some n => pure (.flt (normZ n.toUInt64)) | none => throw "bad bits"
+  | "double" => match v.toNat? with | some n => pure (.dbl (normZ n.toUInt64)) | none => throw "bad bits"
   | "bool" => pure (.bool (v == "1"))
   | _ => throw s!"bad value kind {k}"
 
@@ -442,7 +446,11 @@ def specOn (j : Json) : Except String Json := do
   let mut idx := 0
   for s in samples do
     let envs ← sampleEnvs f s
-    let inq := modNonnegForm f envs
+    -- a sample the compiled job was not run on (null in "observed") is not judged
+    let skipped : Bool := match observed with
+      | some obs => match obs[idx]? with | some o => o.isNull | none => true
+      | none => false
+    let inq := modNonnegForm f envs && !skipped
     let py := refValue true f envs
     let cpy := refValue false f envs
     let model := runModel f envs
